@@ -151,10 +151,34 @@ inductive Word
 /-- `ListNode._join_entries` -/
 def isSpaceChar (c : Char) : Bool := c == ' ' || c == '\n' || c == '\t' || c == '\r' || c == '\x0b' || c == '\x0c'
 
+def lastLine (cs : List Char) : List Char := (cs.reverse.takeWhile (· != '\n')).reverse
+
+/-- `ListNode._COMMENT_LINE.match`: ` {0,4}[cC]( |$)` -/
+def isCommentLine (cs : List Char) : Bool :=
+  let lead := cs.takeWhile (· == ' ')
+  lead.length ≤ 4 &&
+    match cs.dropWhile (· == ' ') with
+    | c :: r => (c == 'c' || c == 'C') && (match r with | [] => true | d :: _ => d == ' ')
+    | [] => false
+
 def joinEntries (front text : String) : String :=
-  match front.toList.getLast?, text.toList.head? with
-  | some a, some b => if !isSpaceChar a && !isSpaceChar b then front ++ " " ++ text else front ++ text
-  | _, _ => front ++ text
+  if front.isEmpty || text.isEmpty then front ++ text
+  else
+    let fl := front.toList
+    let ll := lastLine fl
+    -- an entry can not follow a comment on the same line
+    let front' := if ll.contains '$' || (fl.contains '\n' && isCommentLine ll) then front ++ "\n" else front
+    match front'.toList.getLast?, text.toList.head? with
+    | some a, some b =>
+      if a == '\n' then
+        -- behind a line break the entry must stay a continuation: at least BLANK_SPACE_CONTINUE leading blanks
+        let lead := (text.toList.takeWhile (· == ' ')).length
+        if lead < Gen.blankSpaceContinue then
+          front' ++ String.ofList (List.replicate (Gen.blankSpaceContinue - lead) ' ') ++ text
+        else front' ++ text
+      else if !isSpaceChar a && !isSpaceChar b then front' ++ " " ++ text
+      else front' ++ text
+    | _, _ => front' ++ text
 
 def zeroPad (len : Nat) (s : String) : String :=
   String.ofList (List.replicate (len - s.length) '0') ++ s
